@@ -148,9 +148,36 @@ func (wg *WaitGroup) Wait() {
 
 // Map mirrors sync.Map. Under the scheduler every operation is a sequentially consistent
 // synchronisation on the map object (stronger than the real sync.Map's guarantees: it can
-// hide races that go through a Map but never invents one).
+// hide races that go through a Map but never invents one). Range must be deterministic for a
+// given schedule (its callback usually contains scheduling points), so under an exploration the
+// shim remembers the order in which keys were first stored and Range visits a snapshot of the
+// keys taken when it starts, in that order, skipping the ones deleted meanwhile -- one of the
+// behaviours sync.Map documents ("Range does not necessarily correspond to any consistent
+// snapshot"; a key stored during the call may or may not be visited: here it is not).
 type Map struct {
-	real sync.Map
+	real  sync.Map
+	order []any // keys in first-store order, maintained only while an exploration is active
+}
+
+func (m *Map) noteStore(key any) {
+	if !vrt.Active() {
+		return
+	}
+	if _, ok := m.real.Load(key); !ok {
+		m.order = append(m.order, key)
+	}
+}
+
+func (m *Map) noteDelete(key any) {
+	if !vrt.Active() {
+		return
+	}
+	for i, k := range m.order {
+		if k == key {
+			m.order = append(m.order[:i:i], m.order[i+1:]...)
+			return
+		}
+	}
 }
 
 func (m *Map) Load(key any) (any, bool) {
@@ -159,22 +186,27 @@ func (m *Map) Load(key any) (any, bool) {
 }
 func (m *Map) Store(key, value any) {
 	vrt.SyncPoint(unsafe.Pointer(m), true)
+	m.noteStore(key)
 	m.real.Store(key, value)
 }
 func (m *Map) LoadOrStore(key, value any) (any, bool) {
 	vrt.SyncPoint(unsafe.Pointer(m), true)
+	m.noteStore(key)
 	return m.real.LoadOrStore(key, value)
 }
 func (m *Map) LoadAndDelete(key any) (any, bool) {
 	vrt.SyncPoint(unsafe.Pointer(m), true)
+	m.noteDelete(key)
 	return m.real.LoadAndDelete(key)
 }
 func (m *Map) Delete(key any) {
 	vrt.SyncPoint(unsafe.Pointer(m), true)
+	m.noteDelete(key)
 	m.real.Delete(key)
 }
 func (m *Map) Swap(key, value any) (any, bool) {
 	vrt.SyncPoint(unsafe.Pointer(m), true)
+	m.noteStore(key)
 	return m.real.Swap(key, value)
 }
 func (m *Map) CompareAndSwap(key, old, new any) bool {
@@ -183,11 +215,45 @@ func (m *Map) CompareAndSwap(key, old, new any) bool {
 }
 func (m *Map) CompareAndDelete(key, old any) bool {
 	vrt.SyncPoint(unsafe.Pointer(m), true)
-	return m.real.CompareAndDelete(key, old)
+	ok := m.real.CompareAndDelete(key, old)
+	if ok {
+		m.noteDelete(key)
+	}
+	return ok
 }
 func (m *Map) Range(f func(key, value any) bool) {
 	vrt.SyncPoint(unsafe.Pointer(m), false)
-	m.real.Range(f)
+	if !vrt.Active() {
+		m.real.Range(f)
+		return
+	}
+	keys := append([]any{}, m.order...)
+	seen := make(map[any]bool, len(keys))
+	for _, k := range keys {
+		seen[k] = true
+		if v, ok := m.real.Load(k); ok {
+			if !f(k, v) {
+				return
+			}
+		}
+	}
+	// keys stored while no exploration was active (package initialisation) are not in the
+	// order list: they follow, in Go's order (keys stored during this Range are not visited)
+	for _, k := range m.order {
+		seen[k] = true
+	}
+	var rest [][2]any
+	m.real.Range(func(k, v any) bool {
+		if !seen[k] {
+			rest = append(rest, [2]any{k, v})
+		}
+		return true
+	})
+	for _, kv := range rest {
+		if !f(kv[0], kv[1]) {
+			return
+		}
+	}
 }
 
 // Pool mirrors sync.Pool. Outside an exploration it is the real pool. Under the scheduler it
